@@ -2,9 +2,12 @@ package main
 
 import (
 	"encoding/json"
+	"fmt"
+
+	be "github.com/echoface/be_indexer"
 )
 
-const c16Rule = "exhaustive over the universe of value shapes (every scalar kind, every typed slice incl. empty and typed nil, fixed-size arrays, []interface{} with nil / nested / bool elements, maps, pointers, channels, funcs, structs, complex, untyped nil) x {field with default container, pattern container, range container, number parser, unknown field} x {k-groups, compact, roaring} x index states {ordinary documents; no document; configured pattern/range/default fields whose holders are empty (empty value lists, unparsable values skipped)}; every hostile retrieval is followed by ordinary retrievals on the same index/scanner. Non-trivial = the hostile value reaches a holder of a known field (the retrieval returns an error or a result computed from it); distinct = distinct input"
+const c16Rule = "exhaustive over the universe of value shapes (every scalar kind, every typed slice incl. empty and typed nil, fixed-size arrays, []interface{} with nil / nested / bool elements, maps, pointers, channels, funcs, structs, complex, untyped nil) x {field with default container, pattern container, range container, number parser, unknown field} x {k-groups, compact, roaring} x index states {ordinary documents; no document; configured pattern/range/default fields whose holders are empty (empty value lists, unparsable values skipped)}; every hostile retrieval is followed by ordinary retrievals on the same index/scanner; plus every shape on indexes published three times by one builder (panic-freedom only). Non-trivial = the hostile value reaches a holder of a known field (the retrieval returns an error or a result computed from it); distinct = distinct input"
 
 func init() {
 	props["C16"] = &propDef{
@@ -94,6 +97,57 @@ func init() {
 				}
 				add(c)
 			}
+		},
+		// indexes published more than once by the same builder (BuildIndex, more documents, BuildIndex, BuildIndex):
+		// only panic-freedom is checked here ("any built index"); the answers of such indexes are not claimed
+		extra: func(tier string, seed uint64, outdir string) (map[string]interface{}, []string) {
+			var viol []string
+			calls := 0
+			for _, kind := range []string{"kgroups", "compact"} {
+				c := eCase{Kind: kind, Policy: "skip", Configs: map[int]string{1: "ac_matcher", 2: "ext_range"}, Parsers: map[int]string{4: "number"}}
+				restore := installParsers(c.Parsers)
+				b := newBuilder(&c)
+				mk := func(id int64, cj eConj) *be.Document { d := eDoc{ID: id, Cons: []eConj{cj}}; return d.build() }
+				first := []*be.Document{
+					mk(1, eConj{{F: 0, Inc: true, V: tvSlice("[]int", tvInt("int", 7))}, {F: 1, Inc: true, V: tvStr("abc")}}),
+					mk(2, eConj{{F: 2, Inc: true, Op: 1, V: tvInt("int64", 18)}}),
+					mk(3, eConj{{F: 2, Inc: true, V: tvSlice("[]int", tvInt("int", 5))}, {F: 4, Inc: false, V: tvInt("int", 3)}}),
+				}
+				later := []*be.Document{
+					mk(4, eConj{{F: 2, Inc: true, Op: 2, V: tvInt("int64", 100)}}),
+					mk(5, eConj{{F: 1, Inc: false, V: tvStr("zz")}, {F: 5, Inc: true, V: tvStr("late")}}),
+				}
+				for _, d := range first {
+					safeCall(func() { b.AddDocument(d) })
+				}
+				var index be.BEIndex
+				if safeCall(func() { index = b.BuildIndex() }) {
+					restore()
+					continue
+				}
+				for _, d := range later {
+					safeCall(func() { b.AddDocument(d) })
+				}
+				if safeCall(func() { index = b.BuildIndex() }) || safeCall(func() { index = b.BuildIndex() }) {
+					restore()
+					continue // a refusal to build again is not a retrieval panic
+				}
+				for _, v := range allShapes() {
+					for f := 0; f <= 5; f++ {
+						for _, q := range []be.Assignments{
+							{fieldName(f): v.Value()},
+							{fieldName(0): 7, fieldName(1): "xabcx", fieldName(2): 20, fieldName(f): v.Value()},
+						} {
+							calls++
+							if safeCall(func() { index.Retrieve(q) }) && len(viol) < 3 {
+								viol = append(viol, fmt.Sprintf("Retrieve panicked on a %s index published three times by its builder: field f%d value %s", kind, f, v.T))
+							}
+						}
+					}
+				}
+				restore()
+			}
+			return map[string]interface{}{"republished_index_retrievals": calls}, viol
 		},
 		exec: func(raw json.RawMessage) (execResult, error) {
 			var probe struct {
